@@ -5,8 +5,8 @@ MANIFEST = {
             "C22_print_parse_synth (for every tree of the fragment wf without paren nodes: scanning the printed items gives exactly the printed tokens and parsing them returns the tree "
             "up to the parentheses the printer inserted), C22_blank_sound (no two adjacent printed tokens combine: - -x, a / *p, a & &b, x - -y, 1 .x), C22_parse_printed (the parser returns norm e, "
             "the tree with exactly the printer's parentheses), C22_fuel_adequate, C22_prec_table_covered (every operator of the regenerated Token.Precedence table is inside the theorem's domain). "
-            "FULL on the fragment wf = ident, literals, number-unit, $env, all 19 binary operators, unary + - ! ^ & <-, *x, paren, selector, index, call with ..., x! x? x?:d; "
-            "PARTIAL for C22 as a whole: slice, composite/slice literal, lambda, type assertion are only checked by the differential run and the oracle (three non-round-tripping shapes are proved "
+            "FULL on the fragment wf = ident, literals, number-unit, $env, all 19 binary operators, unary + - ! ^ & <-, *x, paren, selector, index, call with ..., x! x? x?:d, x.(T), lambda expressions (all four parameter/result forms); "
+            "PARTIAL for C22 as a whole: slice and composite/slice literal are only checked by the differential run and the oracle (three non-round-tripping shapes are proved "
             "as model witnesses C22_witness_* and recorded as findings); command-style calls and statements are not modelled.",
     "note": "trusted: Lean kernel (propext, Classical.choice, Quot.sound); the hand-written model M3 (tied by the differential run: rendered text byte-for-byte against printer.Fprint, "
             "token stream against the real scanner, parse result against parser.ParseExpr, combines-table against the real scanner on all operator pairs) and the translator target prec "
